@@ -281,8 +281,18 @@ pub fn run_sync_within(bytecode: &Bytecode, builtins: &BuiltinRegistry<E>, max_s
     }
 }
 
+/// A shaken bytecode whose own tables mention ids outside themselves (or ids that reach
+/// themselves) is reported as a failure of the shake; running or merging it would make the
+/// runtime walk dangling type ids (out-of-bounds panics, unbounded recursion).
+fn closed(bc: Bytecode) -> Result<Bytecode, String> {
+    match crate::bcverify::verify_tables(&crate::bcverify::Tables::of_bytecode(&bc)).into_iter().next() {
+        None => Ok(bc),
+        Some(problem) => Err(format!("tree-shaken tables are not closed: {}", problem)),
+    }
+}
+
 pub fn shake(unit: &CompiledUnit) -> Result<Bytecode, String> {
-    guarded(|| unit.program.to_bytecode_optimized(unit.entry))
+    guarded(|| unit.program.to_bytecode_optimized(unit.entry)).and_then(closed)
 }
 
 /// JSON write -> read; Err describes an instability of the representation itself.
@@ -606,7 +616,7 @@ pub fn package_entry(wrapped: &str, builtins: &BuiltinRegistry<E>) -> Result<(By
             } else {
                 idx
             };
-            match guarded(|| unit.program.to_bytecode_optimized(entry)) {
+            match guarded(|| unit.program.to_bytecode_optimized(entry)).and_then(closed) {
                 Ok(bc) => Ok((bc, n)),
                 Err(p) => Err(Obs::Panic(format!("in to_bytecode_optimized: {}", p))),
             }
